@@ -81,7 +81,7 @@ pub fn run(ctx: &mut Ctx, replay: Option<&str>) {
         for i in 0..n {
             let mut r = ctx.rng.fork(i as u64);
             let f = gen_flow(&mut r, &cfg);
-            let control = f.issue.clone();
+            let _ = ();
             let mut bad = f.issue.clone();
             // make sure there is an object inside an array sometimes
             if r.chance(1, 3) {
